@@ -281,6 +281,23 @@ class ScriptedGen:
         return np.array([[(100.0 * (j + 1) + k + 1) * self.ratio for k in range(L)] for j in range(n)])
 
 
+def draw_inmem(joker, helper, samples_row, chunk, rng, n_linear):
+    """linear-parameter draws for ONE accepted row on the in-memory path: through likelihood_helpers.make_full_samples_inmem when the
+    library has it, else through the public API (rejection_sample on a one-row library always accepts its row) with TheJoker
+    handing out the prepared helper"""
+    try:
+        from thejoker.likelihood_helpers import make_full_samples_inmem
+    except ImportError:
+        make_full_samples_inmem = None
+    if make_full_samples_inmem is not None:
+        return make_full_samples_inmem(helper, np.ascontiguousarray(chunk, dtype=float), rng, n_linear_samples=n_linear)
+    joker._make_joker_helper = lambda data: helper
+    try:
+        return joker.rejection_sample(getattr(helper, "data"), samples_row, n_linear_samples=n_linear, in_memory=True)
+    finally:
+        del joker._make_joker_helper
+
+
 def _spy_helper(joker, data, sg):
     from thejoker.src.fast_likelihood import CJokerHelper
     base = joker._make_joker_helper(data)
@@ -304,7 +321,6 @@ def realize(case):
     """case: {id, g, ua, jitter_kind, nlinear, fam: {'kernel','draw','orbit'} -> family prefixes}.  Returns a trace."""
     import astropy.units as u
     from thejoker import TheJoker
-    from thejoker.likelihood_helpers import make_full_samples_inmem
     g, ua = case["g"], case["ua"]
     fam = case["fam"]
     events = [{"ev": "Cfg", "g": g, "ua": {k: v for k, v in ua.items()}}]
@@ -371,8 +387,7 @@ def realize(case):
             with np.errstate(all="ignore"):
                 helper.batch_marginal_ln_likelihood(np.ascontiguousarray(dchunk, dtype=float))
                 sg.calls[:] = []
-                samples = make_full_samples_inmem(helper, np.ascontiguousarray(tchunk, dtype=float),
-                                                  np.random.default_rng(case.get("seed", 0) + 17), n_linear_samples=nl)
+                samples = draw_inmem(joker, helper, target, tchunk, np.random.default_rng(case.get("seed", 0) + 17), nl)
             ev["ncalls"] = len(sg.calls)
             c0 = sg.calls[0]
             ev["size"] = int(c0["size"]) if c0["size"] is not None else 1
@@ -716,7 +731,6 @@ def realize_real(case):
     import random as _random
     import astropy.units as u
     from thejoker import TheJoker
-    from thejoker.likelihood_helpers import make_full_samples_inmem
     from . import gauss_oracle as go
     rnd = _random.Random(case["seed"])
     c = random_real_config(rnd)
@@ -748,7 +762,7 @@ def realize_real(case):
             helper = _spy_helper(joker, data, sg)
             chunk, _ = smp.pack(units=helper.internal_units, names=helper.packed_order)
             with np.errstate(all="ignore"):
-                samples = make_full_samples_inmem(helper, np.ascontiguousarray(chunk, dtype=float), np.random.default_rng(1), n_linear_samples=1)
+                samples = draw_inmem(joker, helper, smp, chunk, np.random.default_rng(1), 1)
             a_o, A_o = go.posterior(c2)
             # kernel state is in the data's unit: parameter i has unit data/day^p; all slots scale by `ratio`
             mean = np.array(sg.calls[0]["mean"], dtype=float) / ratio
